@@ -165,19 +165,11 @@ func (s *MemoryStore) Enqueue(env Envelope) error {
 	now := s.nowFn()
 	s.maybePruneLocked(now)
 
-	if s.maxDepth > 0 {
-		activeCount := s.activeCountLocked()
-		activeDeliveredCount := s.activeDeliveredCountLocked()
-		for activeCount >= s.maxDepth || (s.deliveredRetentionMaxAge > 0 && activeDeliveredCount >= s.maxDepth) {
-			if s.dropPolicy != "drop_oldest" {
-				return ErrQueueFull
-			}
-			if !s.dropOldestQueuedLocked() {
-				return ErrQueueFull
-			}
-			activeCount = s.activeCountLocked()
-			activeDeliveredCount = s.activeDeliveredCountLocked()
-		}
+	// Plan drop_oldest evictions first and apply them only once the new
+	// envelope is certain to be stored: a refused enqueue must not evict.
+	victims, err := s.planDropOldestLocked(1)
+	if err != nil {
+		return err
 	}
 
 	if pressure := s.memoryPressureStatusLocked(); pressure.Active {
@@ -188,8 +180,11 @@ func (s *MemoryStore) Enqueue(env Envelope) error {
 	if env.ID == "" {
 		env.ID = newHexID("evt_")
 	}
-	if _, exists := s.items[env.ID]; exists {
+	if _, exists := s.items[env.ID]; exists && !containsID(victims, env.ID) {
 		return ErrEnvelopeExists
+	}
+	for _, id := range victims {
+		s.evictLocked(id, memoryEvictionReasonDropOldest)
 	}
 	if env.State == "" {
 		env.State = StateQueued
@@ -237,19 +232,12 @@ func (s *MemoryStore) EnqueueBatch(items []Envelope) (int, error) {
 	now := s.nowFn()
 	s.maybePruneLocked(now)
 
-	// Pre-validate: check depth, duplicates, and prepare copies.
-	activeCount := s.activeCountLocked()
-	activeDeliveredCount := s.activeDeliveredCountLocked()
+	// Pre-validate: check depth (planning drop_oldest evictions without
+	// applying them), duplicates, and prepare copies.
 	needed := len(items)
-	if s.maxDepth > 0 {
-		if s.dropPolicy != "drop_oldest" {
-			if activeCount+needed > s.maxDepth {
-				return 0, ErrQueueFull
-			}
-			if s.deliveredRetentionMaxAge > 0 && activeDeliveredCount+needed > s.maxDepth {
-				return 0, ErrQueueFull
-			}
-		}
+	victims, err := s.planDropOldestLocked(needed)
+	if err != nil {
+		return 0, err
 	}
 
 	prepared := make([]*Envelope, 0, needed)
@@ -263,7 +251,7 @@ func (s *MemoryStore) EnqueueBatch(items []Envelope) (int, error) {
 			return 0, ErrEnvelopeExists
 		}
 		seenIDs[env.ID] = struct{}{}
-		if _, exists := s.items[env.ID]; exists {
+		if _, exists := s.items[env.ID]; exists && !containsID(victims, env.ID) {
 			return 0, ErrEnvelopeExists
 		}
 		if env.State == "" {
@@ -291,23 +279,15 @@ func (s *MemoryStore) EnqueueBatch(items []Envelope) (int, error) {
 		prepared = append(prepared, &cpy)
 	}
 
-	// Handle depth overflow with drop_oldest.
-	if s.maxDepth > 0 {
-		for activeCount+len(prepared) > s.maxDepth || (s.deliveredRetentionMaxAge > 0 && activeDeliveredCount+len(prepared) > s.maxDepth) {
-			if !s.dropOldestQueuedLocked() {
-				return 0, ErrQueueFull
-			}
-			activeCount = s.activeCountLocked()
-			activeDeliveredCount = s.activeDeliveredCountLocked()
-		}
-	}
-
 	if pressure := s.memoryPressureStatusLocked(); pressure.Active {
 		s.memoryPressureRejects++
 		return 0, ErrMemoryPressure
 	}
 
-	// Commit all items.
+	// Apply the planned drop_oldest evictions, then commit all items.
+	for _, id := range victims {
+		s.evictLocked(id, memoryEvictionReasonDropOldest)
+	}
 	for _, env := range prepared {
 		s.items[env.ID] = env
 		s.order = append(s.order, env.ID)
@@ -459,16 +439,49 @@ func envelopeRetainedBytes(env *Envelope) int64 {
 	return size
 }
 
-func (s *MemoryStore) dropOldestQueuedLocked() bool {
+// planDropOldestLocked returns the queued ids that must be evicted (oldest
+// first) so that needed new items fit under max_depth, without evicting
+// anything. It returns ErrQueueFull when the queue is full and the policy is
+// not drop_oldest, or when there are not enough queued items to evict.
+func (s *MemoryStore) planDropOldestLocked(needed int) ([]string, error) {
+	if s.maxDepth <= 0 {
+		return nil, nil
+	}
+	activeCount := s.activeCountLocked()
+	activeDeliveredCount := s.activeDeliveredCountLocked()
+	full := func() bool {
+		return activeCount+needed > s.maxDepth || (s.deliveredRetentionMaxAge > 0 && activeDeliveredCount+needed > s.maxDepth)
+	}
+	if !full() {
+		return nil, nil
+	}
+	if s.dropPolicy != "drop_oldest" {
+		return nil, ErrQueueFull
+	}
+	var victims []string
 	for _, id := range s.order {
+		if !full() {
+			break
+		}
 		env := s.items[id]
-		if env == nil {
+		if env == nil || env.State != StateQueued || containsID(victims, id) {
 			continue
 		}
-		if env.State != StateQueued {
-			continue
+		victims = append(victims, id)
+		activeCount--
+		activeDeliveredCount--
+	}
+	if full() {
+		return nil, ErrQueueFull
+	}
+	return victims, nil
+}
+
+func containsID(ids []string, id string) bool {
+	for _, v := range ids {
+		if v == id {
+			return true
 		}
-		return s.evictLocked(id, memoryEvictionReasonDropOldest)
 	}
 	return false
 }
